@@ -98,9 +98,23 @@ func (fr *Frame) callStatic(site ssa.Instruction, f *ssa.Function, args []Val, s
 	if name := fc.eng.builtinModel(f); name != "" {
 		return fr.callModel(site, name, f, args, st)
 	}
-	if sp := fc.eng.db.Funcs[key]; sp != nil && !sp.Has("inline", "") {
+	sp := fc.eng.db.Funcs[key]
+	if sp == nil && f.Origin() != nil {
+		// instantiation of a generic function: the contract is written on the generic origin
+		sp = fc.eng.db.Funcs[funcKey(f.Origin())]
+		if sp != nil {
+			key = funcKey(f.Origin())
+		}
+	}
+	if sp != nil && !sp.Has("inline", "") {
 		names, tys := paramNames(f, sp)
-		return fr.callByContract(site, key, sp, names, tys, args, f.Signature, st, f.Pkg.Pkg)
+		var tpkg *types.Package
+		if f.Pkg != nil {
+			tpkg = f.Pkg.Pkg
+		} else if f.Object() != nil {
+			tpkg = f.Object().Pkg()
+		}
+		return fr.callByContract(site, key, sp, names, tys, args, f.Signature, st, tpkg)
 	}
 	if fc.eng.isOpaquePure(f) {
 		return fr.opaqueResults(site, f.Signature, st, key)
@@ -210,6 +224,10 @@ func (fr *Frame) callByContract(site ssa.Instruction, key string, sp *Block, nam
 		h := fc.heldSet(st)
 		fc.oblige(st, "lock", path, Select(h, tv), fr.pos(site), "unlock of a lock that is held")
 		st.ghosts["held"] = fc.sc.Define("held", Store(h, tv, TFalse))
+	}
+	// ghost counters: `ghostinc name(key)` adds one to the ghost map `name` at `key`
+	for _, c := range sp.ClausesOf("ghostinc") {
+		fr.ghostInc(mkEv(pre, pre), c, st)
 	}
 	var res []Val
 	for i := 0; i < sig.Results().Len(); i++ {
@@ -596,7 +614,7 @@ func (fr *Frame) callBuiltin(site ssa.Instruction, b *ssa.Builtin, c *ssa.CallCo
 			p, pn := fc.mapP(st, u)
 			ks := fc.mapKeySort(u)
 			fc.setHeap(st, pn, Store(p, m, ConstArr(ArrSort(ks, SBool), TFalse)))
-			cc, cn := fc.mapC(st)
+			cc, cn := fc.mapCT(st, u)
 			fc.setHeap(st, cn, Store(cc, m, IntLit(0)))
 			return nil
 		}
@@ -618,4 +636,35 @@ func (fr *Frame) callBuiltin(site ssa.Instruction, b *ssa.Builtin, c *ssa.CallCo
 	}
 	unsup("builtin %s", b.Name())
 	return nil
+}
+
+// ghostInc implements the clause `ghostinc name(keyexpr)`.
+func (fr *Frame) ghostInc(ev *EvalCtx, c *Clause, st *State) {
+	fc := fr.fc
+	e, err := ParseExpr(c.Text)
+	if err != nil {
+		unsup("%s:%d: %v", c.File, c.Line, err)
+	}
+	call, ok := e.(ECall)
+	if !ok || len(call.Args) != 1 {
+		unsup("%s:%d: ghostinc name(key)", c.File, c.Line)
+	}
+	var key TV
+	func() {
+		defer func() {
+			if r := recover(); r != nil {
+				if ee, ok := r.(evalErr); ok {
+					panic(unsupported{fmt.Sprintf("%s:%d: %s (in %q)", c.File, c.Line, ee.msg, c.Text)})
+				}
+				panic(r)
+			}
+		}()
+		key = ev.eval(call.Args[0])
+	}()
+	if key.V.T == nil {
+		unsup("%s:%d: ghostinc key must be scalar", c.File, c.Line)
+	}
+	name := "gmap:" + call.Fn
+	arr := fc.ghost(st, name, ArrSort(key.V.T.Sort, SInt))
+	st.ghosts[name] = fc.sc.Define("gmap", Store(arr, key.V.T, Add(Select(arr, key.V.T), IntLit(1))))
 }
